@@ -32,17 +32,28 @@ Definition outcome_matches (o : uout) (r : fres) : bool :=
 
 (** one handle: an outcome handed out is the task's own and is handed out once; a call made after
     the task finished (and before its outcome was handed out) returns it whatever the duration;
-    a failure ("join failed"/"timeout join failed") is reported only for a task that had not finished,
-    or whose outcome has been handed out; nothing else is ever returned (no [Ok(None)], no abort,
+    a failure ("join failed"/"timeout join failed") is reported only for a task that had not finished
+    by the end of the requested wait (before the call, or within the duration asked for; [join] waits
+    without limit), or whose outcome has been handed out; nothing else is ever returned (no [Ok(None)], no abort,
     no panic of the facade function, no divergence) *)
+Definition finished_in_time (c : fjcall) : bool :=
+  match fc_fin c with
+  | Some f =>
+      (f <=? fc_now c)
+      || match fc_call c with
+         | FCJoin => f <=? U64MAX
+         | FCTimeout d => f <=? get_timeout_time (fc_now c) (Z.min d U64MAX)
+         end
+  | None => false
+  end.
+
 Fixpoint fprop (o : uout) (handed : bool) (js : list (fjcall * fres)) : bool :=
   match js with
   | [] => true
   | (c, r) :: rest =>
-      let fin_before := match fc_fin c with Some f => f <=? fc_now c | None => false end in
       match r with
       | FVal _ | FErr _ => outcome_matches o r && negb handed && fprop o true rest
-      | FFailed => (negb fin_before || handed) && fprop o handed rest
+      | FFailed => (negb (finished_in_time c) || handed) && fprop o handed rest
       | _ => false
       end
   end.
